@@ -344,7 +344,10 @@ Inductive cause :=
 | LocalClose          (* cli.Close() *)
 | LocalDisconnect     (* cli.Disconnect() from another goroutine: a local close through the API *)
 | PeerClose           (* the peer closes the connection *)
-| Malformed.          (* the peer sends a malformed packet *)
+| Malformed           (* the peer sends a malformed packet *)
+| ReadFails.          (* Transport.Read fails with an error value although neither side closed the stream (a
+                         timeout, a lost link, any error whatever it says about itself — Temporary(), Timeout() —):
+                         readPacket returns it and serve returns it (serve.go:70-73) *)
 
 Definition is_ctx (z : cause) : bool := match z with CtxCancel | CtxDeadline => true | _ => false end.
 
@@ -385,7 +388,7 @@ Definition valid (c : call) (p : point) (z : cause) : bool :=
   | PBefore => true
   | PWait1 => Nat.leb 1 (nwaits c) && negb (call_eqb c CConnect && match z with LocalDisconnect => true | _ => false end)
   | PWait2 => Nat.leb 2 (nwaits c)
-  | PInWrite => match z with LocalClose | PeerClose => true | _ => false end
+  | PInWrite => match z with LocalClose | PeerClose | ReadFails => true | _ => false end
       (* a context is not looked at inside Transport.Write (that is the transport, not the client): see
          [seq_outcomes] for "cancel, then Close" *)
   end.
@@ -430,6 +433,7 @@ Definition apply_cause (p : point) (z : cause) (s : sys) : sys :=
   | LocalClose => set_tclosed s true
   | PeerClose => set_eof s true
   | Malformed => set_inbox s (inbox s ++ [PBad])
+  | ReadFails => set_eof s true     (* for the reader the same as the end of the stream: the read fails *)
   | LocalDisconnect =>
       match p with
       | PBefore =>
@@ -517,7 +521,7 @@ Definition cell_ok (k : cell) : bool :=
 Definition all_calls := [CConnect; CPub0; CPub1; CPub2; CSub; CUnsub; CPing; CDisconnect; CRetryPing;
                          CRPub1; CRPub1x; CRPub2; CRPub2x; CRRel; CRRelx; CRSub; CRSubx; CRUnsub; CRUnsubx].
 Definition all_points := [PEntry; PBefore; PWait1; PWait2; PInWrite].
-Definition all_causes := [CtxCancel; CtxDeadline; LocalClose; LocalDisconnect; PeerClose; Malformed].
+Definition all_causes := [CtxCancel; CtxDeadline; LocalClose; LocalDisconnect; PeerClose; Malformed; ReadFails].
 
 Definition all_cells : list cell :=
   flat_map (fun c => flat_map (fun p => map (fun z => (c, p, z)) all_causes) all_points) all_calls.
